@@ -99,9 +99,8 @@ Qed.
 (* ---------- the store hypothesis discharged from C08's round trip ----------
    ts = the per-value inferred types; stored = exactly the decodings of their encodings, in any order and
    multiplicity (the store de-duplicates rows and returns them in its own order).
-   The premise that every inferred type is `inferable` over importable classes is C08's; that get_type only
-   produces `inferable` types (no Tuple[T, ...], no forward reference, unions normal, keys distinct) is not
-   proved anywhere yet, so it stays explicit here. *)
+   The premise that every inferred type is `inferable` over importable classes is C08's; it is explicit here
+   and discharged in Proofs/PipelineInferable.v (get_type only produces `inferable` types). *)
 Section Store.
 Variable cname : cls -> string * string.
 Variable site : string.
@@ -191,8 +190,6 @@ Theorem pipeline_sound_store_fn h bt k rs (obs : list value) (ts ds stored : lis
 Proof.
   intros Hh Hb Hc TOK WV HM OKs HD Hst HS Hv.
   pose proof (mapM_Forall2 _ _ _ HD) as F2.
-  (* only the types of ts that reach ds matter; restate through the relational theorem on a stored list
-     that is exactly the image *)
   assert (Himg : forall t, In t ts -> exists d, In d ds /\ store_rt t = Some d).
   { clear - F2. induction F2 as [|a b l l' Hab _ IH]; intros t Ht; [destruct Ht|].
     destruct Ht as [<-|Ht]; [exists b; split; [left; reflexivity|exact Hab]|].
